@@ -125,7 +125,15 @@ nps 100
 
 
 # --------------------------------------------------------------------------- generator of valid edit scripts
+# numbers that an earlier renumbering of the same script gave up (reset by gen_script): handing one of them to another
+# object is a valid edit, and the one a stale number cache gets wrong (seeded C03a)
+_FREED = []
+
+
 def _free(rng, used, lo=1, hi=99):
+    given_up = [n for n in _FREED if n not in used and lo <= n <= hi]
+    if given_up and rng.random() < 0.4:
+        return rng.choice(given_up)
     for _ in range(200):
         n = rng.randint(lo, hi)
         if n not in used:
@@ -360,6 +368,7 @@ def gen_script(rng, text, limit, n):
         except Exception:  # noqa: BLE001
             return None
         script = []
+        del _FREED[:]
         while len(script) < n:
             hint, kinds = None, None
             if script and rng.random() < 0.25:
@@ -371,6 +380,13 @@ def gen_script(rng, text, limit, n):
                 break
             ok = True
             for e in es:
+                if e[0] in ("cellNumber", "surfNumber", "matNumber", "trNumber", "uniNumber"):
+                    coll = {"cellNumber": p.cells, "surfNumber": p.surfaces, "matNumber": p.materials,
+                            "trNumber": p.transforms, "uniNumber": p.universes}[e[0]]
+                    try:
+                        _FREED.append(coll.objects[e[1]].number)
+                    except Exception:  # noqa: BLE001
+                        pass
                 if ci.outcome(p, e) != "ok":
                     ok = False  # the real code rejected a valid edit: keep it in the script, the oracle will judge it
                 script.append(e)
